@@ -4,6 +4,7 @@ sub-agent that is to propose a property-breaking change. The brief contains the 
 titles of changes already proposed for it (so that it proposes something else) and nothing else from /verif."""
 import json, os, sys
 prop, sid, tl = sys.argv[1:4]
+focus = open(sys.argv[4]).read().strip() if len(sys.argv) > 4 else ""
 p = next(json.loads(l) for l in open("/verif/properties.jsonl") if json.loads(l)["id"] == prop)
 done = sorted(d[4:].replace("-", " ") for d in os.listdir("/verif/seeded") if d.startswith(prop + "-"))
 wt = f"/tmp/mut/{sid}"
@@ -34,6 +35,8 @@ particular size), or two cooperating sites that each look fine alone. It must NO
 expose at once (e.g. not "every insert fails"). Prefer a change in code paths that are rarely combined. It may touch
 any file of the crate that takes part in the behaviour the property describes (also helper modules, the actor, the
 engine, the store, migrations, ...), not only the most obvious function.
+
+{focus}
 
 These changes have already been proposed for this property by others -- propose something DIFFERENT in mechanism and
 in what is needed to trigger it (not a variation of one of them):
